@@ -470,7 +470,7 @@ impl Family for CompletionWalks {
 /// a zero-column set) and then returns Err: what it reported must have reached the transport before
 /// run_on returns the callback's error.
 struct CompletedThenFailed;
-const CTF: [&str; 5] = ["completed(r, i)", "complete_one(r, i), writer dropped", "complete_one(1, 2), complete_one(r, i), writer dropped", "zero-column set of r rows, writer dropped", "complete_one(r, i), finish_one of a zero-column set of 3 rows, dropped"];
+const CTF: [&str; 7] = ["completed(r, i)", "complete_one(r, i), writer dropped", "complete_one(1, 2), complete_one(r, i), writer dropped", "zero-column set of r rows, writer dropped", "complete_one(r, i), finish_one of a zero-column set of 3 rows, dropped", "complete_one(r, i), writer dropped by an unwinding panic the shim catches", "zero-column set of r rows, writer dropped by an unwinding panic the shim catches"];
 impl CompletedThenFailed {
     const VALS: [u64; 6] = [0, 7, 251, 65_536, 1 << 24, u64::MAX];
     fn case(idx: u64) -> (usize, u64, u64, bool) {
@@ -503,8 +503,19 @@ impl Family for CompletedThenFailed {
                 p.push(WOp::Drop);
                 (p, vec![(rows as u64, 0)])
             }
-            _ => (vec![WOp::CompleteOne(r, i), WOp::Start(c0.clone()), WOp::EndRow, WOp::EndRow, WOp::EndRow, WOp::FinishOne, WOp::Drop], vec![(r, i), (3, 0)]),
+            4 => (vec![WOp::CompleteOne(r, i), WOp::Start(c0.clone()), WOp::EndRow, WOp::EndRow, WOp::EndRow, WOp::FinishOne, WOp::Drop], vec![(r, i), (3, 0)]),
+            5 => (vec![WOp::CompleteOne(r, i), WOp::DropUnwinding], vec![(r, i)]),
+            _ => {
+                let mut p = vec![WOp::Start(c0.clone())];
+                for _ in 0..rows {
+                    p.push(WOp::EndRow);
+                }
+                p.push(WOp::DropUnwinding);
+                (p, vec![(rows as u64, 0)])
+            }
         };
+        // the last two programs end with a panic the shim catches: the callback returns Ok
+        let fails = ctx < 5;
         let mut cmds = Vec::new();
         if bin {
             cmds.push(ClientCmd::new(with_byte(COM_STMT_PREPARE, b"id=1 p=0")));
@@ -525,20 +536,25 @@ impl Family for CompletedThenFailed {
             _ => Behavior::Silent,
         });
         let mut cfg = ConnCfg::new(behave);
-        cfg.fail_after = Some((if bin { 1 } else { 0 }, 777));
+        if fails {
+            cfg.fail_after = Some((if bin { 1 } else { 0 }, 777));
+        }
         let o = run_conn(sim, cfg);
         st.transitions += 1;
-        let what = format!("{} (r = {}, i = {}, {}), then the callback returns Err", CTF[ctx], r, i, if bin { "binary" } else { "text" });
+        let what = format!("{} (r = {}, i = {}, {}), then the callback returns {}", CTF[ctx], r, i, if bin { "binary" } else { "text" }, if fails { "Err" } else { "Ok" });
         if let ConnResult::Panic(l, m) = &o.res {
             return Err(Violation::new(panic_key(l, m), format!("{}: run_on panicked at {}: {}", what, l, m)));
         }
-        if o.res != ConnResult::ErrMarker(777) {
+        if fails && o.res != ConnResult::ErrMarker(777) {
             return Err(Violation::new("late-shim-error-not-returned", format!("{}: run_on returned {}", what, o.res.short())));
+        }
+        if !fails && !o.res.is_ok() {
+            return Err(Violation::new("result-not-ok", format!("{}: run_on returned {}", what, o.res.short())));
         }
         // everything the callback reported must be on the transport (written; a flush is not owed
         // once the connection ends with an error)
         let k = conv.cmds.len() - 2;
-        let d = decode_all(&o.sim.out, &conv, &s.last_seq, k + 1, false).map_err(|e| Violation::new("reported-completion-did-not-arrive", format!("{}: {}", what, e)))?;
+        let d = decode_all(&o.sim.out, &conv, &s.last_seq, if fails { k + 1 } else { k + 2 }, false).map_err(|e| Violation::new("reported-completion-did-not-arrive", format!("{}: {}", what, e)))?;
         let got: Vec<(u64, u64)> = d.replies[k].iter().filter_map(|u| if let Unit::Ok { rows, id, .. } = u { Some((*rows, *id)) } else { None }).collect();
         if got != want {
             return Err(Violation::new("reported-completion-did-not-arrive", format!("{}: reported {:?}, on the transport {:?}", what, want, got)));
